@@ -747,7 +747,26 @@ func (in *interp) write(o Op, w *wtxn) string {
 		panicked        any
 	)
 	locked := w.locked[t]
-	before := lightDigest(tbl, w.txn)
+	// Fingerprint the transaction's view only around operations the model
+	// expects to change nothing: iterating a write transaction freezes its
+	// nodes (txnID bump) and would mask in-place mutation defects elsewhere.
+	expectNoChange := !locked
+	switch o.K {
+	case opDelete:
+		expectNoChange = expectNoChange || !exists
+	case opCAS:
+		r, _ := in.guard(ts, pk, o.G)
+		expectNoChange = expectNoChange || !exists || cur.rev != r
+	case opCAD:
+		r, _ := in.guard(ts, pk, o.G)
+		expectNoChange = expectNoChange || !exists || cur.rev != r
+	case opDeleteAll:
+		expectNoChange = expectNoChange || len(ts.objs) == 0
+	}
+	var before uint64
+	if expectNoChange {
+		before = lightDigest(tbl, w.txn)
+	}
 	beforeRev := tbl.Revision(w.txn)
 	call := func(f func()) {
 		defer func() {
@@ -924,7 +943,7 @@ func (in *interp) write(o Op, w *wtxn) string {
 		in.viol("C03", "read-your-writes", "after DeleteAll NumObjects in the transaction is %d", n)
 	}
 	// ---- rejected operations change nothing
-	if !success {
+	if !success && expectNoChange {
 		if after := lightDigest(tbl, w.txn); after != before {
 			in.viol("C03", "reject-changed", "%s rejected with %s changed the table as seen by the transaction", opNames[o.K], wantErr)
 		}
